@@ -69,10 +69,23 @@ impl TenantIndex {
     pub fn remove_config(&mut self, key: &ConfigKey) -> (r: bool)
         ensures final(self)@ == old(self)@.remove(*key), r == old(self)@.contains(*key)
     { unimplemented!() }
+    /// THE canonical result list of a search (unit configindex: TenantIndex::result_list — permitted tenants, groups, data ids in increasing order)
+    pub uninterp spec fn result_list(&self, p: ConfigQueryParam) -> Seq<ConfigKey>;
+    /// assumed here with the clauses unit configindex proves for the real TenantIndex::query_config_page (total, window) and its
+    /// spec lemmas (lemma_result_list_exact: the list names stored keys only)
+    #[verifier::external_body]
+    pub fn query_config_page(&self, param: &ConfigQueryParam) -> (r: (usize, Vec<ConfigKey>))
+        // unit configindex proves these clauses under `requires offset + limit <= usize::MAX`; a window whose end overflows is not decided
+        ensures param.offset + param.limit <= usize::MAX ==> r.0 == self.result_list(*param).len(),
+            param.offset + param.limit <= usize::MAX ==> r.1@ == page(self.result_list(*param), param.offset as int, param.limit as int),
+            forall|i: int| 0 <= i < self.result_list(*param).len() ==> self@.contains(#[trigger] self.result_list(*param)[i]),
+    { unimplemented!() }
 }
 
 pub struct SnapshotWriterActor {}
-pub struct ConfigQueryParam { pub vx: u8 }
+/// namespace privilege of the caller (src/common/model/privilege.rs): opaque here, decided in units privilege / configindex
+#[verifier::external_body]
+pub struct NamespacePrivilegeGroup { vx: u8 }
 pub struct ConfigHistoryParam { pub vx: u8 }
 /// actix Context<A>: opaque
 #[verifier::external_body]
@@ -81,10 +94,6 @@ pub struct Context<A> { inner: core::marker::PhantomData<A> }
 
 impl ConfigActor {
     // query / snapshot helpers of the actor that are not under contract in this unit (listing correctness: unit configindex)
-    #[verifier::external_body]
-    pub fn get_config_info_page(&self, param: &ConfigQueryParam) -> (usize, Vec<ConfigInfoDto>) { unimplemented!() }
-    #[verifier::external_body]
-    pub fn get_config_info_by_keys(&self, keys: &[ConfigKey]) -> (usize, Vec<ConfigInfoDto>) { unimplemented!() }
     #[verifier::external_body]
     pub fn get_history_info_page(&self, param: &ConfigHistoryParam) -> (usize, Vec<ConfigHistoryInfoDto>) { unimplemented!() }
     #[verifier::external_body]
